@@ -478,7 +478,8 @@ class TheJoker:
 
             pm.Deterministic("logp", model.logp())
 
-            dist = pm.Normal.dist(model.model_rv, data.rv_err.value)
+            # same (jitter-inflated) uncertainties as the "obs" likelihood above
+            dist = pm.Normal.dist(model.model_rv, err)
             lnlike = pm.Deterministic(
                 "ln_likelihood", pm.logp(dist, data.rv.value).sum(axis=-1)
             )
